@@ -165,3 +165,22 @@ def eval_str_predicate(f, value, param=1, fuel=400):
         else:
             return None
     return None
+
+
+RS_INTEREST = (r'^ripd::session::emit_events?$|ContinuityStore::append_\w+$|^rip_log::write_snapshot$|^rip_kernel::Session::(set_seq|next_event|seq)$'
+               r'|^ripd::session::run_openresponses_agent_loop$|ToolRunner::(run|create_checkpoint|rewind_checkpoint)$')
+RS_KEEP = r'^ripd::session::(emit_events?|run_openresponses_agent_loop|compile_context_bundle_for_run|summarize_continuity_tool_side_effects)$|^ripd::continuities::|^rip_'
+
+
+def run_session_body(P, note=None):
+    """the body of run_session as the rules read it: private helpers of session.rs that hold one
+    of the lifecycle constructs (an emit, a store append, the snapshot, the kernel seq / next_event,
+    the provider loop, a tool run) are spliced in at their call sites, so a terminal emission or a
+    recording block that was extracted into a helper is still seen on the path where it runs."""
+    if not hasattr(P, '_rs_inl'):
+        import re as _re
+        from ..inline import inline_calls, contains
+        base = P.body('ripd::session::run_session')
+        c = contains(rx_calls=RS_INTEREST)
+        P._rs_inl = inline_calls(P, base, lambda body, callee: not _re.search(RS_KEEP, callee) and c(body, callee), depth=2, note=note)
+    return P._rs_inl
